@@ -32,6 +32,18 @@ def match(known, prop, rule, tmin, res, run):
                 cfg_ok = False
         if not cfg_ok:
             continue
+        # loss-type rules: the key the oracle complained about must have been lost through
+        # one of the listed paths (e.g. rejected by admission / evicted as a victim), not
+        # through any other path (a purge that removes a live entry is a different defect)
+        if rule in kf.get("key_loss_rules", []):
+            k = (res.get("keys") or {}).get(rule)
+            keyed = (res.get("state") or {}).get("keyed", {})
+            ok = False
+            for pid in kf.get("key_loss_any", []):
+                if k is not None and k in keyed.get(pid, []):
+                    ok = True
+            if not ok:
+                continue
         if kf.get("max_threads") and len(tmin["threads"]) > kf["max_threads"]:
             continue
         if kf.get("min_threads") and len(tmin["threads"]) < kf["min_threads"]:
